@@ -24,3 +24,4 @@ def run(ck):
     geometry.r15_empty_image_not_addressed_directly(ck, P)
     geometry.r16_translation_offset_in_wide_type(ck, P)
     geometry.r_coordinate_split_floors(ck, P, 'C04-R18')     # the dither tables are indexed with a reduced coordinate
+    geometry.r_dispatch_needs_extent_analysis(ck, P)
